@@ -131,6 +131,8 @@ def validate_chunk(ck, wd, label, nk, lat, outs, kp, workers=3):
         raise vlib.Broken("a generated history is not a behaviour of EnvMap (generator and validator disagree): %s" % stuck[:3])
     if r.is_violation and not fails:
         raise vlib.Broken("TLC reported a violation but printed no FAIL record:\n" + r.out[-3000:])
+    if fails and not r.is_violation:
+        raise vlib.Broken("FAIL records without an invariant violation:\n" + r.out[-3000:])
     with LOCK:
         ck.add_tlc(r, label)
     return fails, knowns, expect
@@ -320,7 +322,8 @@ def run(tier, seed):
                       "discrete_domain): (a) BFS with 4 keys, one history per transition of the graph reachable within 3 steps "
                       "(all transitions up to 2 steps; third steps from %s of the 2-step states, chosen by a seeded hash); (b) BFS of "
                       "one step from populated start states: every pair of non-empty key sets in registers 1 and 2, two value "
-                      "patterns, register 3 top or a shared copy (%s of the start states); (a),(b) are judged at the last step; "
+                      "patterns, register 3 top or a shared copy (binary operations and copy from every start state, the other "
+                      "operations from %s of the start states); (a),(b) are judged at the last step; "
                       "(c) -simulate behaviours with 10 keys, 12 steps (mixed) and 24 steps (dense: register 1 written most often, "
                       "only proper values set), judged after every step. Each history is replayed with key indices from the "
                       "listed universes. A judged behaviour = a simulated history, or a prefix plus one alternative last event. "
